@@ -331,8 +331,15 @@ func resp3To2(val3 respValue) (value respValue) {
 	switch v := val3.data.(type) {
 	case respSimpleString, respErrorString, respInt, respBulkString:
 		value.data = v
-	case respDouble, respBool, respBigNumber, respVerbatimString:
+	case respDouble, respBigNumber, respVerbatimString:
 		value.data = respSimpleString(fmt.Sprintf("%s", v))
+	case respBool:
+		// RESP2 has no boolean: Redis sends the integers 1 and 0
+		if v {
+			value.data = respInt(1)
+		} else {
+			value.data = respInt(0)
+		}
 	case respBlobError:
 		value.data = respErrorString(v.String())
 	case respMap:
